@@ -10,7 +10,7 @@ use crate::region::verif_region::TapeRng;
 use crate::mac::verif_mac::any_mac;
 
 #[derive(Debug)] pub(crate) struct PhyEv;
-#[derive(Debug)] pub(crate) struct PhyErr;
+#[derive(Debug)] pub(crate) struct PhyErr(u8);   // not zero-sized (DESIGN 15)
 #[derive(Debug)] pub(crate) struct PhyResp;
 /// ghost log of the radio contract-stub
 pub(crate) struct RadioLog { pub tx_requests: u8, pub rx_requests: u8, pub cancels: u8, pub phy_events: u8, pub last_rx: Option<radio::RfConfig>, pub calls: u8 }
@@ -36,7 +36,7 @@ impl radio::PhyRxTx for MockRadio {
         let k = tape::stub_u8() % 7;
         let k = if self.sending && k != 0 { 4 } else { k };
         match k {
-            0 => Err(PhyErr),
+            0 => Err(PhyErr(1)),
             1 => Ok(radio::Response::Idle),
             2 => Ok(radio::Response::Txing),
             3 => Ok(radio::Response::Rxing),
